@@ -119,6 +119,12 @@ func (k *Keeper) EthereumTx(goCtx context.Context, msg *evmtypes.MsgEthereumTx) 
 	receipt.GasUsed = response.GasUsed
 	receipt.BlockNumber = big.NewInt(ctx.BlockHeight())
 	receipt.TransactionIndex = uint(txIndex)
+	// the consensus encoding of a receipt does not carry the position of its logs within the block,
+	// restore it from the log count of the earlier transactions
+	startLogIndex := uint(k.GetCumulativeLogCountTransient(ctx, true))
+	for i, log := range receipt.Logs {
+		log.Index = startLogIndex + uint(i)
+	}
 
 	receiptSdkEvent, err := evmtypes.GetSdkEventForReceipt(
 		receipt, // receipt
